@@ -161,7 +161,7 @@ func generate(ctx *core.Ctx, passwords, permSets string) ([]genCase, error) {
 			cfg := fmt.Sprintf("INIT GInit\nNEXT GNext\nCONSTANTS\n Passwords <- %s\n PermSets <- %s\n Versions = {%d}\n OWNER_FIRST = TRUE\n TRY_EMPTY = TRUE\n FORGET = \"\"\n",
 				passwords, permSets, v)
 			cs, _, err := core.GenCases[genCase](ctx, core.TLCOpts{Dir: "crypt", Module: "Gen_StdSec", CfgText: cfg, Mode: "evaluate",
-				XssMB: 512, Timeout: ctx.Dur(5, 10), Quiet: i > 0, Constants: passwords + " x " + permSets})
+				XssMB: 512, XmxMB: 2000, Timeout: ctx.Dur(5, 10), Quiet: i > 0, Constants: passwords + " x " + permSets})
 			mu.Lock()
 			defer mu.Unlock()
 			if err != nil && first == nil {
@@ -214,6 +214,7 @@ type tally struct {
 	indepFiles    int
 	indepAuth     int
 	indepItems    int
+	reverseFiles  int
 	indepNotes    map[string]int
 	indepSample   []string
 	strings       int
@@ -307,7 +308,7 @@ func run(ctx *core.Ctx) error {
 	go func() { defer gwg.Done(); t1, err1 = generate(ctx, "Classes4", "AllPermSets") }()
 	go func() { defer gwg.Done(); t2, err2 = generate(ctx, "Structured", "FewPermSets") }()
 	for _, cfg := range []string{"MC_StdSec_q.cfg", "MC_StdSec_t.cfg"} {
-		res, err := ctx.MustHold(core.TLCOpts{Dir: "crypt", Module: "MC_StdSec", Cfg: cfg, Workers: ctx.Pick(8, 12), Coverage: ctx.Thorough(),
+		res, err := ctx.MustHold(core.TLCOpts{Dir: "crypt", Module: "MC_StdSec", Cfg: cfg, Workers: ctx.Pick(8, 12), Coverage: ctx.Thorough(), XmxMB: 3000,
 			Constants: "see " + cfg, Timeout: ctx.Dur(5, 15)})
 		if err != nil {
 			gwg.Wait()
@@ -384,6 +385,7 @@ func run(ctx *core.Ctx) error {
 	ctx.Logf("executed %d documents, %d open attempts on the real Writer/Reader", tl.docs, tl.reads)
 
 	probeRefusals(ctx)
+	reverseCheck(ctx.Rand("reverse"), ctx.Pick(3, 40), tl)
 
 	// 3. compare with the table; judge every record with TLC
 	sort.SliceStable(recs, func(i, j int) bool {
@@ -403,7 +405,7 @@ func run(ctx *core.Ctx) error {
 			tl.implDiverge++
 		}
 	}
-	bad, err := core.JudgeCases(ctx, core.TLCOpts{Dir: "crypt", Module: "Trace_StdSec", Cfg: "Trace_StdSec.cfg", Timeout: ctx.Dur(5, 15)}, forTLC(recs), 4000, 12)
+	bad, err := core.JudgeCases(ctx, core.TLCOpts{Dir: "crypt", Module: "Trace_StdSec", Cfg: "Trace_StdSec.cfg", XmxMB: 2000, Timeout: ctx.Dur(5, 15)}, forTLC(recs), 4000, 12)
 	if err != nil {
 		return err
 	}
@@ -458,6 +460,7 @@ func run(ctx *core.Ctx) error {
 	ctx.Ev.Set("indep_secure_files_cross_opened", tl.indepFiles)
 	ctx.Ev.Set("indep_secure_authentications", tl.indepAuth)
 	ctx.Ev.Set("indep_secure_items_decrypted", tl.indepItems)
+	ctx.Ev.Set("indep_secure_built_files_opened_by_reader", tl.reverseFiles)
 	ctx.Ev.Set("indep_secure_disagreements_for_C10", tl.indepNotes)
 	if len(tl.indepSample) > 0 {
 		ctx.Ev.Set("indep_secure_disagreement_samples", tl.indepSample)
@@ -465,8 +468,8 @@ func run(ctx *core.Ctx) error {
 			ctx.Logf("NOTE (for C10, not a C09 verdict): indep/secure disagrees with the Writer: %s x%d", k, tl.indepNotes[k])
 		}
 	}
-	ctx.Logf("indep/secure: %d files cross-opened, %d authentications, %d items decrypted, %d kinds of disagreement",
-		tl.indepFiles, tl.indepAuth, tl.indepItems, len(tl.indepNotes))
+	ctx.Logf("indep/secure: %d files of the Writer cross-opened (%d authentications, %d items decrypted), %d files built by indep/secure opened by the Reader, %d kinds of disagreement",
+		tl.indepFiles, tl.indepAuth, tl.indepItems, tl.reverseFiles, len(tl.indepNotes))
 	return nil
 }
 
@@ -548,7 +551,7 @@ func confirmAll(ctx *core.Ctx, rejected []record) error {
 			}
 			again[i] = n
 		}
-		bad, err := core.JudgeCases(ctx, core.TLCOpts{Dir: "crypt", Module: "Trace_StdSec", Cfg: "Trace_StdSec.cfg", Timeout: ctx.Dur(5, 15)}, forTLC(again), 4000, 12)
+		bad, err := core.JudgeCases(ctx, core.TLCOpts{Dir: "crypt", Module: "Trace_StdSec", Cfg: "Trace_StdSec.cfg", XmxMB: 2000, Timeout: ctx.Dur(5, 15)}, forTLC(again), 4000, 12)
 		if err != nil {
 			return err
 		}
